@@ -855,18 +855,23 @@ def bool_world_edges(ctx, term_pred, value):
                 rem.add((bi, tg))
     rem = Rem(rem)
     rem.assume = ((term_pred, bool(value)),)
-    return rem, n or _deep_tests(ctx, lambda atom: atom[0] == "bool" and term_pred(atom[1]))
+    return rem, n or _deep_tests(ctx, lambda atom: atom[0] == "bool" and term_pred(atom[1]), value_pred=term_pred)
 
 
-def _deep_tests(ctx, atom_pred, depth=2):
+def _deep_tests(ctx, atom_pred, depth=2, value_pred=None):
     """number of switches accepted by atom_pred in the local callees of ctx (parameters bound),
-    so that a test moved into a helper still counts as a test of the handler."""
+    so that a test moved into a helper still counts as a test of the handler.  With value_pred, a
+    predicate helper that RETURNS the test (`fn has_stake(&self) -> bool { !self.total.is_zero() }`,
+    no switch of its own) counts too."""
     n = 0
     for c, path in inline_walk(ctx.prog, ctx, depth):
         if not path:
             continue
         for bi, atom in c.atoms():
             if atom_pred(atom):
+                n += 1
+        if value_pred is not None and (c.body.j.get("ret_ty") or "") == "bool":
+            if any(value_pred(s_) for s_ in subterms(c.T.return_term())):
                 n += 1
     return n
 
